@@ -176,6 +176,13 @@ fn run_session(bin: &PathBuf, mode: &Mode, roots: &[History], terminals: &[Pos],
     if let Some(fp) = &mode.failpoints {
         opts.env.push(("WALLEYE_VERIF_FP".into(), format!("{};seed={};prob=70", fp, seed.wrapping_mul(17).wrapping_add(sid))));
     }
+    if mode.ptdelay {
+        // the unmodified binary with its threads held at the channel operations, at thread start
+        // and at the standard-output entry points (a latency beyond the bound is re-measured solo
+        // without delays before it counts, like every other slow case)
+        opts.ptdelay = Some((*rng.pick(&[300u32, 1000]), seed.wrapping_mul(29).wrapping_add(sid)));
+        opts.ptset = crate::bb::PtSet::Both;
+    }
     let mut s = match Sess::start(bin, opts, false) {
         Ok(s) => s,
         Err(e) => {
@@ -330,7 +337,7 @@ pub fn solo_confirm(bin: &PathBuf, c: &SlowCase) -> Vec<f64> {
 
 pub fn run(tier: Tier, seed: u64) -> i32 {
     let mut run = Run::new("C08", tier, seed, "exploration");
-    run.rule = "evaluation = one `go` on the real binary with a planned slice s <= 200 ms (clock settings with movestogo absent or >= 1), alternating terminal roots (checkmates and stalemates: sampled KQK/KRK/KPK/KRRK/KQPKP families with corner-biased kings, terminal positions met by oracle-driven games with full material, composed mates) and non-terminal roots. Checked: a bestmove arrives; on a terminal root it is `0000` or `(none)`, otherwise a legal move; isready is answered afterwards and the next position+go is served; when the engine's own answer ends the game (a quarter of the non-terminal roots are one move from mate or stalemate) a further go without a new position must be answered with a null move as well. Hang = no answer after s + 1.5 s AND /proc shows the search thread gone (immediate verdict) or the process ended; latency above s + 300 ms is confirmed by three solo re-runs before it counts; a watchdog expiry with a live search thread is inconclusive. Schedules: 8 and 32 engines in parallel, pinned to one CPU, hooked binary with failpoints (search thread start delayed up to 20 ms, sends delayed). Non-trivial = every go; distinct by (mode, root, go line, session)".into();
+    run.rule = "evaluation = one `go` on the real binary with a planned slice s <= 200 ms (clock settings with movestogo absent or >= 1), alternating terminal roots (checkmates and stalemates: sampled KQK/KRK/KPK/KRRK/KQPKP families with corner-biased kings, terminal positions met by oracle-driven games with full material, composed mates) and non-terminal roots. Checked: a bestmove arrives; on a terminal root it is `0000` or `(none)`, otherwise a legal move; isready is answered afterwards and the next position+go is served; when the engine's own answer ends the game (a quarter of the non-terminal roots are one move from mate or stalemate) a further go without a new position must be answered with a null move as well. Hang = no answer after s + 1.5 s AND /proc shows the search thread gone (immediate verdict) or the process ended; latency above s + 300 ms is confirmed by three solo re-runs before it counts; a watchdog expiry with a live search thread is inconclusive. Schedules: 8 and 32 engines in parallel, pinned to one CPU, hooked binary with failpoints (search thread start delayed up to 20 ms, sends delayed), unmodified binary under ptrace delay injection (threads held at channel operations, thread start and standard-output entry points). Non-trivial = every go; distinct by (mode, root, go line, session)".into();
     run.assumptions = vec![
         "unbounded 'eventually answers' is restated as the bound slice + 300 ms (solo-confirmed) and plan + 10 s watchdog".into(),
         "accepted null-move spellings: 0000 and (none)".into(),
@@ -386,11 +393,14 @@ pub fn run(tier: Tier, seed: u64) -> i32 {
     }
     let steps = tier.pick(10, 20);
     let mut plan: Vec<(Mode, usize, usize)> = Vec::new();
-    plan.push((Mode { name: "plain_par8".into(), hooked: false, pin: false, failpoints: None }, tier.pick(48, 720), 8));
-    plan.push((Mode { name: "plain_par32".into(), hooked: false, pin: false, failpoints: None }, tier.pick(64, 768), 32));
-    plan.push((Mode { name: "plain_pinned".into(), hooked: false, pin: true, failpoints: None }, tier.pick(16, 288), 8));
+    plan.push((Mode { name: "plain_par8".into(), hooked: false, pin: false, failpoints: None, ptdelay: false }, tier.pick(48, 720), 8));
+    plan.push((Mode { name: "plain_par32".into(), hooked: false, pin: false, failpoints: None, ptdelay: false }, tier.pick(64, 768), 32));
+    plan.push((Mode { name: "plain_pinned".into(), hooked: false, pin: true, failpoints: None, ptdelay: false }, tier.pick(16, 288), 8));
+    if bb::ptdelay_tool(&plain).is_some() {
+        plan.push((Mode { name: "plain_ptdelay".into(), hooked: false, pin: false, failpoints: None, ptdelay: true }, tier.pick(16, 192), 8));
+    }
     for i in [0usize, 6, 5] {
-        plan.push((Mode { name: format!("hooked_fp{}", i), hooked: true, pin: false, failpoints: Some(FAILPOINT_SETS[i].to_string()) }, tier.pick(16, 192), 8));
+        plan.push((Mode { name: format!("hooked_fp{}", i), hooked: true, pin: false, failpoints: Some(FAILPOINT_SETS[i].to_string()), ptdelay: false }, tier.pick(16, 192), 8));
     }
     let mut slow_all: Vec<SlowCase> = Vec::new();
     let mut sid_base = 0u64;
